@@ -4,9 +4,12 @@
 (* catch_unwind) and of the rcomp binary on generated documents.  For a    *)
 (* document whose attributes are known by construction the outcome must be *)
 (* Pipeline.Predict; for arbitrary text (known = FALSE) it must only be    *)
-(* "ok" or "err".                                                          *)
+(* "ok" or "err".  Path cases (r.path) vary where the grammar is, from     *)
+(* where it is named and where the output goes: same requirement, and the  *)
+(* place of the output is compared with Paths.Predict.                     *)
 (***************************************************************************)
 EXTENDS Pipeline, TLC, Json, IOUtils
+PT == INSTANCE Paths
 
 Recs == ndJsonDeserialize(IOEnv.RECS)
 VARIABLE i
@@ -18,7 +21,15 @@ Verdict(r) ==
              \cup (IF ~r.known \/ ~total THEN {}
                    ELSE IF r.outcome = want.outcome /\ (r.outcome = "ok" \/ r.class = want.class) THEN {}
                    ELSE {<<"diagnostic_differs", r.outcome, r.class, want.outcome, want.class>>})
-  IN [id |-> r.id, via |-> r.via, bad |-> bad, outcome |-> r.outcome, class |-> r.class]
+      \* path cases: the record says from where, on which grammar path, with which root dir
+      \* and output root the compiler ran and where the parser file was found afterwards
+      \* (Paths.Predict; a difference in PLACE is a divergence of the model, an abort is C16)
+      where == IF "path" \notin DOMAIN r \/ ~total \/ want.outcome # "ok" THEN {}
+               ELSE LET w == PT!Predict(r.path.cwd, r.path.out, r.path.root, r.path.g)
+                    IN IF w.outcome # r.outcome THEN {<<"outcome", r.outcome, w.outcome>>}
+                       ELSE IF r.outcome = "ok" /\ r.found # <<w.at>> THEN {<<"place", r.found, w.at>>}
+                       ELSE {}
+  IN [id |-> r.id, via |-> r.via, bad |-> bad, outcome |-> r.outcome, class |-> r.class, where |-> where]
 
 Init == i = 0
 Next == /\ i < Len(Recs)
